@@ -1,7 +1,7 @@
 """C04 — optimisation returns a true optimum (structural clauses O1–O5)."""
 from ..main import run_rule
 from ..flow import (resolver, guards_of, aggregates, root_local, const_defs, variant_guard, peel,
-                    edge_facts)
+                    edge_facts, show)
 from ..facts import op_const_int, op_local, AnchorMissing
 
 LEVEL = ("decides the code-shape clauses the optimum depends on: Optimal is constructed only after a "
@@ -302,6 +302,32 @@ def o5(led, rid, ctx):
               "every path" % [k for k, v in wrote.items() if not v])
 
 
+def o8(led, rid, ctx):
+    """UNSAT-SAT adds nothing permanent to the model except the negation of a bound it has just
+    refuted (so that a later optimise on the same solver starts from the model alone)"""
+    lib = ctx.lib
+    f = None
+    for imp in lib.impls_of("OptimisationProcedure"):
+        if (imp.get("self_adt") or "").endswith("LinearUnsatSat"):
+            f = lib.impl_fn(imp, "optimise")
+    if f is None:
+        raise AnchorMissing("LinearUnsatSat::optimise")
+    R = resolver(f)
+    adds = [c for g in f.with_closures() for c in g.calls if c.name in ("add_clause", "add_constraint", "post")]
+    led.floor(rid, "permanent additions in UNSAT-SAT", len(adds), 1)
+    for c in adds:
+        g = c.fn
+        arm = [fa.val for fa in guards_of(g, c.bb) if fa.kind == "variant" and fa.val in ("Infeasible", "Feasible", "Timeout")]
+        cl = resolver(g).operand(c.args[1]) if len(c.args) > 1 else None
+        negated = cl is not None and any(x.name == "not" for x in cl.calls())
+        ok = c.name == "add_clause" and arm[-1:] == ["Infeasible"] and negated
+        led.check(ok, rid, "LUS:%s@%s" % (c.name, arm[-1] if arm else "no-arm"), c.span,
+                  "add_clause([!assumption]) on the Infeasible arm",
+                  "UNSAT-SAT adds a permanent constraint (%s) outside the refuted-bound step: it stays in the "
+                  "solver after optimise returns, so the next optimise on the same solver is answered for a "
+                  "different model" % (show(cl)[:80] if cl is not None else c.name))
+
+
 def run(ctx, led):
     from . import shared
     run_rule(led, "O6", "every solve of the procedures starts from exactly the assumptions it "
@@ -320,3 +346,4 @@ def run(ctx, led):
              "the update assigns both out-parameters on every path", o5, ctx)
     from . import C05 as _C05
     run_rule(led, "O7", "an unsatisfiable-under-assumptions result restores the root state when it is dropped, so a following optimise starts from the model alone (shared with C05-A1)", _C05.a1, ctx)
+    run_rule(led, "O8", "UNSAT-SAT adds nothing permanent except the negation of a refuted bound", o8, ctx)
